@@ -16,11 +16,13 @@ impl VariableUse {
         // A use records where (and what) the node is. Copying the variable uses
         // cached on the node so far into each new use would nest them, and the
         // size of a node that is updated repeatedly (e.g. a phi statement which
-        // gains one argument per predecessor) would grow factorially.
+        // gains one argument per predecessor) would grow factorially. The same holds for
+        // the index expressions of the access: with their caches a nested access like
+        // `x[x[x[...]]]` would grow exponentially with the nesting depth.
         VariableUse {
             meta: meta.without_variable_knowledge(),
             name: name.clone(),
-            access: access.to_owned(),
+            access: access.iter().map(AccessType::without_variable_knowledge).collect(),
         }
     }
 
